@@ -297,6 +297,34 @@ Fixpoint replay_pred (ranges marks : list Z) (l : list meta) (newid : Z) (hist :
     end
   end.
 
+(* the state after replaying the implementation's plans *)
+Fixpoint replay_fin (l : list meta) (newid : Z) (hist : list (list Z)) : option (list meta) :=
+  match hist with
+  | [] => Some l
+  | out :: h =>
+    match lookup_all l out with
+    | Some p => replay_fin (apply_plan l p newid) (newid + 1) h
+    | None => None
+    end
+  end.
+
+(* boolean form of "every block lies inside one window of the largest range, ranges
+   positive and each dividing the largest, blocks sorted and of positive length" *)
+Definition max_range (ranges : list Z) : Z := fold_right Z.max 0 ranges.
+
+Definition in_max_window (R : Z) (m : meta) : bool := maxt m <=? R * (mint m / R) + R.
+
+Fixpoint sorted_mint_b (l : list meta) : bool :=
+  match l with
+  | [] => true
+  | a :: r => forallb (fun b => mint a <=? mint b) r && sorted_mint_b r
+  end.
+
+Definition win_regime (ranges : list Z) (l : list meta) : bool :=
+  let R := max_range ranges in
+  forallb (fun iv => (0 <? iv) && (R mod iv =? 0)) ranges
+  && sorted_mint_b l && forallb (fun m => mint m <? maxt m) l && forallb (in_max_window R) l.
+
 Definition pred_ok (c : case) : bool :=
   match c with
   | CPlan ranges marks l out =>
@@ -308,6 +336,12 @@ Definition pred_ok (c : case) : bool :=
       end
   | CIter ranges marks l newid hist =>
       (length hist <=? measure l)%nat && replay_pred ranges marks l newid hist
+      && (if win_regime ranges l then
+            match replay_fin l newid hist with
+            | Some fin => forallb (in_max_window (max_range ranges)) fin
+            | None => false
+            end
+          else true)
   | CIndex ranges marks lim l out newmarks =>
       match l, ranges, out with
       | [], _, _ => true
